@@ -412,6 +412,11 @@ func (w *world) log(port, what string, v int) {
 
 // called records a user-function call (argument id) — called from library goroutines.
 func (w *world) called(arg int) {
+	if w.isStopped() {
+		// the case is over (torn down) and a library goroutine still calls the user function: it can only be one that
+		// never stops. Park it, so that the bubble ends (as a deadlock report) instead of spinning on the virtual clock.
+		select {}
+	}
 	t := w.now()
 	w.emu.Lock()
 	w.calls = append(w.calls, arg)
